@@ -109,6 +109,13 @@ def evalBin (op : BinOp) (ty : Ty) (x y : Int) : R Int :=
   | .eq => if ty = .f64 then .err .unsupported else .ok (b2i (x = y))
   | .ne => if ty = .f64 then .err .unsupported else .ok (b2i (x ≠ y))
 
+/-- base of a pointer expression `base + offset` (offset in 64-bit cells) -/
+inductive PBase
+  | param (i : Nat)      -- pointer parameter `i`
+  | pvar (slot : Nat)    -- pointer local: two slots (buffer index or -1 for null, cell offset)
+  | null
+  deriving Repr, Inhabited, DecidableEq
+
 inductive Expr
   | lit (v : Int)                               -- literal, already in the range of its type
   | var (slot : Nat)                            -- scalar parameter or local
@@ -120,6 +127,16 @@ inductive Expr
   | land (a b : Expr)                           -- `a && b` (short circuit)
   | lor (a b : Expr)                            -- `a || b` (short circuit)
   | isNull (ptr : Nat)                          -- `p == 0` for a pointer parameter
+  | ptrEq (b1 : PBase) (o1 : Expr) (b2 : PBase) (o2 : Expr)   -- `(b1 + o1) == (b2 + o2)` on pointers
+  | ptrLt (b1 : PBase) (o1 : Expr) (b2 : PBase) (o2 : Expr)   -- `(b1 + o1) < (b2 + o2)`, same buffer
+  deriving Repr, Inhabited
+
+/-- vector expressions of the AVX kernels: `lanes` consecutive 64-bit cells (`__m256i` = 4, `__m128i` = 2) -/
+inductive VExpr
+  | vload (lanes : Nat) (b : PBase) (o : Expr)   -- `_mm256_loadu_si256(p)` / `_mm_loadu_si128(p)`
+  | vadd (a b : VExpr)                           -- `_mm256_add_epi64` / `_mm_add_epi64`: lane-wise, wrapping
+  | vsub (a b : VExpr)                           -- `_mm256_sub_epi64` / `_mm_sub_epi64`
+  | vset1 (lanes : Nat) (e : Expr)               -- `_mm256_set1_epi64x(e)` / `_mm_set1_epi64x(e)`
   deriving Repr, Inhabited
 
 inductive Stmt
@@ -133,6 +150,11 @@ inductive Stmt
   | doWhile (body : Stmt) (c : Expr)
   | memcpy (dst src : Nat) (bytes : Expr)
   | memset (dst : Nat) (elt : Ty) (val bytes : Expr)
+  | passign (slot : Nat) (b : PBase) (o : Expr)  -- pointer local `= b + o`
+  | vstore (lanes : Nat) (b : PBase) (o : Expr) (v : VExpr)   -- `_mm256_storeu_si256(p, v)` / `_mm_storeu_si128`
+  /-- call of another translated function (`body`, `nslots` of the callee) with scalar arguments `sargs` and
+      pointer arguments `base + offset`; the callee runs on a fresh environment and the caller's memory -/
+  | call (body : Stmt) (nslots : Nat) (sargs : List Expr) (pargs : List (PBase × Expr))
   | ret                                          -- `return;`
   | cont                                         -- `continue;`
   deriving Repr, Inhabited
@@ -212,6 +234,33 @@ def memsetCells (m : Mem) (d : Ptr) (elt : Ty) (val bytes : Int) : R Mem :=
   | none => .err .null
 
 /-! ### expressions -/
+/-! ### pointer values -/
+/-- a pointer local lives in two consecutive slots -/
+def decPtr (env : List Int) (s : Nat) : Ptr :=
+  if lget env s < 0 then none else some ((lget env s).toNat, (lget env (s + 1)).toNat)
+
+def encPtr (env : List Int) (s : Nat) (p : Ptr) : List Int :=
+  match p with
+  | none => lset (lset env s (-1)) (s + 1) 0
+  | some (b, o) => lset (lset env s (b : Int)) (s + 1) (o : Int)
+
+/-- value of `base + v` (cells).  Arithmetic on a null pointer keeps it null; leaving the non-negative
+    offsets is reported as out of bounds. -/
+def ptrAt (Γ : List Ptr) (env : List Int) (b : PBase) (v : Int) : R Ptr :=
+  let base : Ptr := match b with
+    | .param i => Γ.getD i none
+    | .pvar s => decPtr env s
+    | .null => none
+  match base with
+  | none => .ok none
+  | some (bf, off) => if 0 ≤ (off : Int) + v then .ok (some (bf, ((off : Int) + v).toNat)) else .err .oob
+
+/-- pointer ordering: defined inside one buffer only -/
+def ptrLtVal (p q : Ptr) : R Int :=
+  match p, q with
+  | some (b1, o1), some (b2, o2) => if b1 = b2 then .ok (b2i (o1 < o2)) else .err .ub
+  | _, _ => .err .null
+
 def eval (Γ : List Ptr) (σ : State) : Expr → R Int
   | .lit v => .ok v
   | .var x => .ok (lget σ.env x)
@@ -225,6 +274,12 @@ def eval (Γ : List Ptr) (σ : State) : Expr → R Int
   | .lor a b => (eval Γ σ a).bind fun x =>
       if x ≠ 0 then .ok 1 else (eval Γ σ b).bind fun y => .ok (if y = 0 then 0 else 1)
   | .isNull p => .ok (if (Γ.getD p none).isNone then 1 else 0)
+  | .ptrEq b1 o1 b2 o2 =>
+    (eval Γ σ o1).bind fun v1 => (eval Γ σ o2).bind fun v2 =>
+      (ptrAt Γ σ.env b1 v1).bind fun p1 => (ptrAt Γ σ.env b2 v2).bind fun p2 => .ok (b2i (p1 = p2))
+  | .ptrLt b1 o1 b2 o2 =>
+    (eval Γ σ o1).bind fun v1 => (eval Γ σ o2).bind fun v2 =>
+      (ptrAt Γ σ.env b1 v1).bind fun p1 => (ptrAt Γ σ.env b2 v2).bind fun p2 => ptrLtVal p1 p2
 
 /-- condition of `if` / loops -/
 def evalB (Γ : List Ptr) (c : Expr) (σ : State) : R Bool :=
@@ -257,33 +312,80 @@ def loopN (c : State → R Bool) (step : Nat → State → Out) : Nat → State 
   | .ok (.ret, σ) => .ok (.ret, σ)
   | .ok (_, σ) => k σ
 
-def exec (Γ : List Ptr) : Stmt → Nat → State → Out
-  | .skip, _, σ => .ok (.norm, σ)
-  | .assign x e, _, σ => (eval Γ σ e).bind fun v => .ok (.norm, { σ with env := lset σ.env x v })
-  | .store p i e, _, σ =>
+/-- `n` consecutive cells at `p + i`, `p + i + 1`, … -/
+def loadLanes (m : Mem) (p : Ptr) : Nat → Nat → R (List Int)
+  | _, 0 => .ok []
+  | i, n + 1 => (loadCell m p (i : Int)).bind fun v => (loadLanes m p (i + 1) n).bind fun vs => .ok (v :: vs)
+
+def storeLanes (m : Mem) (p : Ptr) : Nat → List Int → R Mem
+  | _, [] => .ok m
+  | i, v :: vs => (storeCell m p (i : Int) v).bind fun m' => storeLanes m' p (i + 1) vs
+
+def zipLanes (f : Int → Int → Int) : List Int → List Int → R (List Int)
+  | [], [] => .ok []
+  | x :: xs, y :: ys => (zipLanes f xs ys).bind fun r => .ok (f x y :: r)
+  | _, _ => .err .unsupported
+
+def evalV (Γ : List Ptr) (σ : State) : VExpr → R (List Int)
+  | .vload n b o => (eval Γ σ o).bind fun v => (ptrAt Γ σ.env b v).bind fun p => loadLanes σ.mem p 0 n
+  | .vadd a b => (evalV Γ σ a).bind fun x => (evalV Γ σ b).bind fun y => zipLanes addS x y
+  | .vsub a b => (evalV Γ σ a).bind fun x => (evalV Γ σ b).bind fun y => zipLanes subS x y
+  | .vset1 n e => (eval Γ σ e).bind fun v => .ok (List.replicate n (wrapS v))
+
+def evalList (Γ : List Ptr) (σ : State) : List Expr → R (List Int)
+  | [] => .ok []
+  | e :: es => (eval Γ σ e).bind fun v => (evalList Γ σ es).bind fun vs => .ok (v :: vs)
+
+def evalPtrs (Γ : List Ptr) (σ : State) : List (PBase × Expr) → R (List Ptr)
+  | [] => .ok []
+  | (b, o) :: ps => (eval Γ σ o).bind fun v => (ptrAt Γ σ.env b v).bind fun p =>
+      (evalPtrs Γ σ ps).bind fun qs => .ok (p :: qs)
+
+/-- result of a call: the callee's final memory, the caller's environment -/
+def callRet (σ : State) (x : Out) : Out :=
+  match x with
+  | .ok (_, σ') => .ok (.norm, { σ with mem := σ'.mem })
+  | .err e => .err e
+
+def execS : Stmt → List Ptr → Nat → State → Out
+  | .skip, _, _, σ => .ok (.norm, σ)
+  | .assign x e, Γ, _, σ => (eval Γ σ e).bind fun v => .ok (.norm, { σ with env := lset σ.env x v })
+  | .store p i e, Γ, _, σ =>
     (eval Γ σ i).bind fun iv => (eval Γ σ e).bind fun v =>
       (storeCell σ.mem (Γ.getD p none) iv v).bind fun m => .ok (.norm, { σ with mem := m })
-  | .seq a b, f, σ =>
-    match exec Γ a f σ with
-    | .ok (.norm, σ') => exec Γ b f σ'
+  | .seq a b, Γ, f, σ =>
+    match execS a Γ f σ with
+    | .ok (.norm, σ') => execS b Γ f σ'
     | r => r
-  | .ite c t e, f, σ => (evalB Γ c σ).bind fun b => if b then exec Γ t f σ else exec Γ e f σ
-  | .while c b, f, σ => loopN (evalB Γ c) (fun f σ => exec Γ b f σ) f σ
-  | .for i c inc b, f, σ =>
-    match exec Γ i f σ with
+  | .ite c t e, Γ, f, σ => (evalB Γ c σ).bind fun b => if b then execS t Γ f σ else execS e Γ f σ
+  | .while c b, Γ, f, σ => loopN (evalB Γ c) (fun f σ => execS b Γ f σ) f σ
+  | .for i c inc b, Γ, f, σ =>
+    match execS i Γ f σ with
     | .ok (.norm, σ1) =>
-      loopN (evalB Γ c) (fun f σ => thenStep (exec Γ b f σ) fun σ' => exec Γ inc f σ') f σ1
+      loopN (evalB Γ c) (fun f σ => thenStep (execS b Γ f σ) fun σ' => execS inc Γ f σ') f σ1
     | r => r
-  | .doWhile b c, f, σ =>
-    thenStep (exec Γ b f σ) fun σ' => loopN (evalB Γ c) (fun f σ => exec Γ b f σ) f σ'
-  | .memcpy d s n, _, σ =>
+  | .doWhile b c, Γ, f, σ =>
+    thenStep (execS b Γ f σ) fun σ' => loopN (evalB Γ c) (fun f σ => execS b Γ f σ) f σ'
+  | .memcpy d s n, Γ, _, σ =>
     (eval Γ σ n).bind fun nv =>
       (memcpyCells σ.mem (Γ.getD d none) (Γ.getD s none) nv).bind fun m => .ok (.norm, { σ with mem := m })
-  | .memset d t v n, _, σ =>
+  | .memset d t v n, Γ, _, σ =>
     (eval Γ σ v).bind fun vv => (eval Γ σ n).bind fun nv =>
       (memsetCells σ.mem (Γ.getD d none) t vv nv).bind fun m => .ok (.norm, { σ with mem := m })
-  | .ret, _, σ => .ok (.ret, σ)
-  | .cont, _, σ => .ok (.cont, σ)
+  | .passign s b o, Γ, _, σ =>
+    (eval Γ σ o).bind fun v => (ptrAt Γ σ.env b v).bind fun p => .ok (.norm, { σ with env := encPtr σ.env s p })
+  | .vstore n b o v, Γ, _, σ =>
+    (eval Γ σ o).bind fun ov => (ptrAt Γ σ.env b ov).bind fun p => (evalV Γ σ v).bind fun vs =>
+      if vs.length = n then (storeLanes σ.mem p 0 vs).bind fun m => .ok (.norm, { σ with mem := m })
+      else .err .unsupported
+  | .call body nslots sargs pargs, Γ, f, σ =>
+    (evalList Γ σ sargs).bind fun vs => (evalPtrs Γ σ pargs).bind fun ps =>
+      callRet σ (execS body ps f { env := vs ++ List.replicate (nslots - vs.length) 0, mem := σ.mem })
+  | .ret, _, _, σ => .ok (.ret, σ)
+  | .cont, _, _, σ => .ok (.cont, σ)
+
+/-- `exec Γ s fuel σ`: run statement `s` with pointer parameters `Γ` -/
+@[reducible] def exec (Γ : List Ptr) (s : Stmt) (f : Nat) (σ : State) : Out := execS s Γ f σ
 
 /-! ### functions -/
 structure Fn where
@@ -295,6 +397,8 @@ structure Fn where
   /-- total number of slots (scalar parameters + locals) -/
   nslots : Nat
   body : Stmt
+  /-- slot of the result of a value-returning function (`return e;` = `assign ret e; ret`) -/
+  ret : Option Nat := none
   deriving Repr, Inhabited
 
 /-- call `fn` with scalar arguments `args` (already values of the parameter types), pointer bindings `Γ`
@@ -305,5 +409,11 @@ def memOf : Out → R Mem
 
 def run (fuel : Nat) (fn : Fn) (args : List Int) (Γ : List Ptr) (m : Mem) : R Mem :=
   memOf (exec Γ fn.body fuel { env := args ++ List.replicate (fn.nslots - args.length) 0, mem := m })
+
+/-- the result of a value-returning function (`none`: the function has no result slot) -/
+def runVal (fuel : Nat) (fn : Fn) (args : List Int) (Γ : List Ptr) (m : Mem) : R (Option Int) :=
+  match exec Γ fn.body fuel { env := args ++ List.replicate (fn.nslots - args.length) 0, mem := m } with
+  | .ok (_, σ) => .ok (fn.ret.map fun r => lget σ.env r)
+  | .err e => .err e
 
 end Spq.CIR
